@@ -29,7 +29,7 @@ def run(ctx):
     evals = 0
     slow = 0
     for h, r in zip(hists, results):
-        key_ctx = {k: h[k] for k in ("target", "producers", "msgs", "sink", "noise", "cores", "burst", "flavour")}
+        key_ctx = {k: h.get(k) for k in ("target", "variant", "producers", "msgs", "sink", "noise", "cores", "burst", "flavour")}
         if r["rc"] == "slow":
             slow += 1          # cut off by the wall-clock watchdog while still making progress: inconclusive for this history
             continue
@@ -68,7 +68,8 @@ def run(ctx):
     cov = {
         "evaluations": evals,
         "distinct_nontrivial": len(fps),
-        "rule": "one history = N producers (2..16) x M messages, caller buffers scrubbed and freed after every call, logger (or bare "
+        "rule": "one history = N producers (2..16) x M messages, caller buffers scrubbed and freed after every call; variants: moved to its own "
+                "thread before the application object exists; a second own-thread stage in front of the sink; logger (or bare "
                 "OwnThreadHandler<Pipeline> with pre-set attributes / formatted text) on its own thread, sink profiles incl. gated "
                 "deliveries, bursts, hook noise, CPU affinity; non-trivial = a backlog of >= 2 was observed and at least one cross-call "
                 "real-time ordered pair exists; distinct by (target, producers, fingerprint of the delivery order)",
